@@ -152,6 +152,43 @@ def run(tier):
                         meta[j["id"]] = {"cnt": cnt, "hist": hist, "facts": {"w": w, "gomaxprocs": gmp, "policy": pol, "mode": mode}}
                     pairs.append((jf["id"], js["id"]))
             groups.append((ts, {"GOMAXPROCS": str(gmp)}, jobs, meta))
+    # ---- spec -> code schedule replay: TLC-simulated behaviours of WorkflowFast at the real number of samples, projected to
+    # short-read sizes (replayed by the reader) and the completion order of the samples (replayed by gates)
+    nsim = 12 if thorough else 5
+    sim_total = 0
+    for Wm, ts in [(2, "0-1"), (3, "0-2"), (4, "0-3")]:
+        jobs, meta = [], {}
+        for S, fns in [(20, ["PeriodDetectFast", "PowerOnDetectFast"]), (50, ["FactoryDetectFast"])]:
+            cfg = ("CONSTANTS W=%d S=%d C=3 FailAt=99 PartialErr=FALSE UseReadFull=TRUE UseLock=TRUE DoneOnError=TRUE SurfaceError=TRUE\n"
+                   "INIT SInit\nNEXT SNext\nCHECK_DEADLOCK FALSE\n" % (Wm, S))
+            r = vlib.run_tlc("SimFast", cfg, workers=1, simulate="num=%d" % nsim, depth=3000, timeout=600, tlc_args=["-seed", str(vlib.seed() + 17 * Wm + S)])
+            if r.rc != 0:
+                raise vlib.InfraError("SimFast simulation failed: " + "\n".join(r.out.splitlines()[-15:]))
+            run.add_tlc(r, "SimFast -simulate W=%d S=%d (%d behaviours)" % (Wm, S, nsim))
+            scheds = [v for v in r.json if v.get("ev") == "schedule"]
+            if len(scheds) < nsim:
+                raise vlib.InfraError("SimFast produced %d schedules" % len(scheds))
+            for sc in scheds:
+                for fn in fns:
+                    s_, sb, items, _ = wf.KINDS[fn]
+                    ip = edge_plans(s_, items, rng)
+                    jid += 1
+                    jf = wf.mkjob(jid, fn, items_plan=ip, plan_seed=rng.randrange(1 << 30), policy="script", rseed=jid, tag="TLC schedule W=%d" % Wm, timeout_ms=15000)
+                    jf["reader"].update({"splits": sc["splits"], "splitC": sc["C"], "sampleB": sb})
+                    jf["gate"] = "order"
+                    jf["order"] = sc["order"]
+                    jid += 1
+                    js = wf.mkjob(jid, wf.SEQ_OF[fn], items_plan=ip, plan_seed=jf["planSeed"], tag="seq ref")
+                    js["stream"] = jf["stream"]
+                    cnt = [ip[i]["pass"] for i in range(items)]
+                    hist = [ip[i]["hist"] for i in range(items)]
+                    for j in (jf, js):
+                        jobs.append(j)
+                        meta[j["id"]] = {"cnt": cnt, "hist": hist, "facts": {"w": Wm, "policy": "tlc-schedule"}}
+                    pairs.append((jf["id"], js["id"]))
+                    sim_total += 1
+        groups.append((ts, {"GOMAXPROCS": str(max(2, Wm))}, jobs, meta))
+    run.extra["tlc_simulated_schedules_replayed"] = sim_total
     allrows = {}
     allrej = set()
     for ts, env, jobs, meta in groups:
@@ -159,6 +196,9 @@ def run(tier):
         allrows.update(rows)
         allrej.update(rej)
     run.sample({"job": {k: v for k, v in groups[0][2][0].items() if k != "items"}, "plan_item_sample": groups[0][2][0]["items"][:3]})
+    sj = groups[-1][2][0]
+    run.sample({"tlc_schedule_job": {"fn": sj["fn"], "splits_head": sj["reader"]["splits"][:12], "order": sj["order"]}})
+    run.extra["gate_timeouts"] = sum(int((allrows.get(j["id"]) or {}).get("gate_timeouts", 0) or 0) for g in groups for j in g[2])
     # differential fast vs sequential
     for fid, sid in pairs:
         a, b = allrows.get(fid), allrows.get(sid)
